@@ -46,7 +46,10 @@ P = {'id': 'C10',
               'cachevec_exactly_once',
               'cachevec_truncate_drops_tail',
               'bumpvec_refines_bounded_vec',
-              'bumpvec_exactly_once'],
+              'bumpvec_exactly_once',
+              'bitpacked_entry_roundtrip',
+              'bitpacked_refines_list',
+              'bitpacked_get_pushes'],
  'consts': True,
  'trusted': ['modelled (M+S), memory = map slot -> option element (None = uninitialised / moved out; reading, moving out or dropping a None slot is '
              'the outcome UB): src/containers/specialized/circular_queue.rs AutoGrowCircularQueue (ensure_power_of_two, with_capacity, reserve, '
@@ -68,12 +71,14 @@ P = {'id': 'C10',
              'required.max(2*capacity).max(4), reallocate with the checked cache-line rounding `(n*size+63) & !63` / size and the Layout limit, '
              'fresh block + copy + dealloc, push, pop, get, clear, truncate, Drop; size_of::<T>() is a parameter) and src/memory/bump.rs '
              'BumpVec<T> (new_in, push with its refusal at len >= capacity, pop, as_slice().get, Drop) - coq/C10/ModelCacheVec.v, every slot access '
-             'checked against the block',
+             'checked against the block; src/containers/specialized/bit_packed_string_vec.rs BitPackedStringVec32/64 (BitPackedEntry packing '
+             'offset | length << 32 resp. (offset & 2^40-1) | length << 40 and the fallback accessors, push with its checks in the order of the '
+             'code - the arena is extended before the entry is validated -, get, get_bytes, len) - coq/C10/ModelBitPacked.v',
              'spec-only cells (shadow Vec/VecDeque oracle with per-id live-instance counting, no mechanism model): '
              'cache_layout::CacheAlignedVec<u64>, memory::cache::CacheAlignedVec for element types other than the drop-counting handle and u8, '
              'MmapVec<u64> (push, pop, resize, truncate, '
              'clear, extend, push_bulk_simd, pop_bulk_simd, fill_range_simd, copy_from_simd, reserve, shrink_to_fit), ZoSortedStrVec (three '
-             'constructors), BitPackedStringVec32/64, AdvancedStringVec levels 0..3; oracle-only inside modelled cells: SortableStrVec::binary_search, '
+             'constructors), AdvancedStringVec levels 0..3, BitPackedStringVec::find_simd / iter; oracle-only inside modelled cells: SortableStrVec::binary_search, '
              'the u32::MAX probe of ValVec32 on zero-sized elements, the 2^24-byte arena probe of FixedLenStrVec, the child-process probe of the '
              'FastVec operations that aborted the process',
              'not covered: src/containers/specialized/circular_queue_ultrafast.rs is not part of the crate (no `mod` declaration; it uses '
@@ -113,7 +118,9 @@ P = {'id': 'C10',
                'slack, every history of push/pop/get/clear/truncate/reserve that fits 2^60 bytes behaves as a Vec without any refusal, and every '
                'pushed element is handed back or destroyed exactly once over history + Drop; BumpVec: a Vec bounded by its fixed capacity (push '
                'refused exactly when full, the refused value destroyed), exactly-once destruction. '
-               'The models are tied to the code by replaying enumerated and generated histories in Coq (about 1600 per quick run) and comparing '
+               'BitPackedStringVec32/64: the packed entries read back what was packed, get i is the i-th accepted string for every history (64-bit '
+               'variant: below 2^40 bytes, the width of its unchecked offset mask), refusals exactly at the limits. '
+               'The models are tied to the code by replaying enumerated and generated histories in Coq (about 1670 per quick run) and comparing '
                'every return value, the multiset of destroyed elements, len, capacity, head/tail indices, strings and sorted views. The remaining '
                'containers are decided by a boundary-biased differential oracle only (S-only). The oracle also drives, inside the same histories, the '
                'secondary entry points (aliases, ==, Debug, Index/IndexMut/get_mut/as_mut_slice/iter_mut, iterators, filling and preset constructors, '
@@ -127,5 +134,5 @@ P = {'id': 'C10',
               'the source; model/implementation differential check on operation histories by vm_compute; differential oracle with drop-counting '
               'elements for all cells; child-process probes for operations that may abort',
  'explanation': 'Unbounded refinement theorems for both circular queues, FastVec (drop and Copy paths), ValVec32, SortableStrVec, FixedLenStrVec, '
-                'memory::cache::CacheAlignedVec and BumpVec; '
+                'memory::cache::CacheAlignedVec, BumpVec and BitPackedStringVec32/64; '
                 'differential oracle for the other containers.'}
